@@ -1,6 +1,7 @@
 import SkgVerif.Lemmas.Kriging
 import SkgVerif.Lemmas.KrigeAlgebra
 import SkgVerif.Gen.Source
+import SkgVerif.Props.Transcribed.C09
 /-!
 # C09 — kriging results do not depend on how the computation is carried out
 -/
